@@ -212,6 +212,31 @@ def random_cyclic_isar(rng):
     return out
 
 
+def random_duplicate_isar(rng):
+    """isar definition sets that reuse names: several typedefs/structs/enums called the same, referring to each other
+    by name (the isar front-end keeps all of them; name lookups see the last one, the sort sees the first)."""
+    out = []
+    for _ in range(3):
+        pool = ['A', 'B', 'C', 'D'][:rng.randint(2, 4)]
+        items = []
+        for i in range(rng.randint(3, 8)):
+            x = rng.choice(pool)
+            r = rng.random()
+            if r < 0.45:
+                items.append('<typedef name="%s" type="%s"/>' % (x, rng.choice(pool)))
+            elif r < 0.7:
+                items.append('<typedef name="%s" primitiveType="32 bit integer unsigned"/>' % x)
+            elif r < 0.85:
+                items.append('<struct name="%s"><member name="m" type="%s"/><member name="k" type="u8"/></struct>'
+                             % (x, rng.choice(pool)))
+            else:
+                items.append('<enum name="%s"><enum-member name="%s_E%d" value="1"/></enum>' % (x, x, i))
+        items.append('<struct name="User"><member name="m" type="%s"/><member name="n" type="%s">'
+                     '<dimension isVariableSize="true"/></member></struct>' % (rng.choice(pool), rng.choice(pool)))
+        out.append(('isar-duplicate-names', '<x>\n' + '\n'.join(items) + '\n</x>\n'))
+    return out
+
+
 def run_shard(spec):
     acc = Acc()
     stepper = pc.Stepper()
@@ -263,7 +288,7 @@ def run_shard(spec):
                 if patch:
                     for fam, t in B.token_corruptions(patch, rng, 2):
                         go('patch-' + fam, xml, fmt='isar', patch=t)
-                for fam, t in random_cyclic_isar(rng):
+                for fam, t in random_cyclic_isar(rng) + random_duplicate_isar(rng):
                     go(fam, t, fmt='isar')
     finally:
         stepper.close()
@@ -274,7 +299,7 @@ def finish(ctx, merged, specs):
     if specs and specs[0]['kind'] == 'replay':
         return
     need = ['outcome:ok', 'outcome:designed', 'family:structural', 'family:replace-token', 'family:expression',
-            'family:isar-random-cycle',
+            'family:isar-random-cycle', 'family:isar-duplicate-names',
             'family:options', 'family:include', 'cli_runs', 'positional_diagnostics']
     missing = [f for f in need if not merged['counters'].get(f)]
     if missing and not merged['inconclusive']:
